@@ -49,7 +49,11 @@ func FetchRecord(ctx context.Context, r Resolver, fromDomain string) (policyDoma
 			return "", nil, err
 		}
 	}
-	if len(txts) == 0 {
+	// Records that are not DMARC policies are discarded before the fallback is
+	// decided (RFC 7489 Section 6.6.3): a wildcard TXT record of the domain
+	// answers for the _dmarc name as well.
+	records := dmarcRecords(txts)
+	if len(records) == 0 {
 		// No records or 'no such host', try orgDomain.
 		// The public suffix list is case-sensitive.
 		orgDomain, err := publicsuffix.EffectiveTLDPlusOne(strings.ToLower(fromDomain))
@@ -66,19 +70,9 @@ func FetchRecord(ctx context.Context, r Resolver, fromDomain string) (policyDoma
 				return "", nil, err
 			}
 		}
-		// Still nothing? Bail out.
-		if len(txts) == 0 {
-			return "", nil, nil
-		}
+		records = dmarcRecords(txts)
 	}
 
-	// Exclude records that are not DMARC policies.
-	records := txts[:0]
-	for _, txt := range txts {
-		if strings.HasPrefix(txt, "v=DMARC1") {
-			records = append(records, txt)
-		}
-	}
 	// Multiple records => no record.
 	if len(records) > 1 || len(records) == 0 {
 		return "", nil, nil
@@ -87,6 +81,17 @@ func FetchRecord(ctx context.Context, r Resolver, fromDomain string) (policyDoma
 	rec, err = dmarc.Parse(records[0])
 
 	return policyDomain, rec, err
+}
+
+// dmarcRecords returns the TXT strings that are DMARC policy records.
+func dmarcRecords(txts []string) []string {
+	records := make([]string, 0, len(txts))
+	for _, txt := range txts {
+		if strings.HasPrefix(txt, "v=DMARC1") {
+			records = append(records, txt)
+		}
+	}
+	return records
 }
 
 type EvalResult struct {
